@@ -91,6 +91,9 @@ def g_expr(rng, d, ty):
             return ["cmp", rng.choice(["<", "<=", "==", "!=", ">", ">="]), g_expr(rng, d - 1, "I"), g_expr(rng, d - 1, "I")]
         if r < 0.65:
             return ["not", g_expr(rng, d - 1, "B")]
+        if r < 0.72:
+            # two truth values compared for (in)equality: a comparison as the operand of a comparison
+            return ["cmp", rng.choice(["==", "!="]), g_expr(rng, d - 1, "B"), g_expr(rng, d - 1, "B")]
         return [rng.choice(["and", "or"]), [g_expr(rng, d - 1, "B") for _ in range(rng.randint(2, 3))]]
     if d <= 0 or r < 0.22:
         q = rng.random()
@@ -437,6 +440,20 @@ def power_base_of_power(j):
             return True
         return any(power_base_of_power(x) for x in j)
     return False
+
+
+def cmp_operand_of_cmp(j):
+    if isinstance(j, list) and j:
+        if j[0] == "cmp" and any(isinstance(x, list) and x and x[0] == "cmp" for x in j[2:4]):
+            return True
+        return any(cmp_operand_of_cmp(x) for x in j)
+    return False
+
+
+@matcher
+def comparison_as_operand_of_comparison(case, fail, **kw):
+    return (fail.get("sig") in ("does-not-parse", "prints-differently", "variables-differ", "value-differs")
+            and cmp_operand_of_cmp(case.get("expr")))
 
 
 @matcher
